@@ -838,7 +838,7 @@ def run(ctx):
     cases_p, nedges = path_cases(ctx, "MC_Fitch_sm_quick.cfg", 16 if q else 1)
     # 2b. TLC: the pass functions with one shared taxon_state_sets_map; an up pass that narrows tips in place must be found
     ctx.model("MC_Fitch", "AsNarrowed_Fitch.cfg", expect_violation="MapUnchanged", count=False, heap="2g")
-    cases_pp, npedges = ppath_cases(ctx, "MC_Fitch_pass_quick.cfg", 8 if q else 1)
+    cases_pp, npedges = ppath_cases(ctx, "MC_Fitch_pass_quick.cfg", 16 if q else 1)
     if not q:
         ctx.model("MC_Fitch", "MC_Fitch_sm_thorough.cfg", heap="3g", timeout=6 * 3600)
         ctx.model("MC_Fitch", "MC_Fitch_sm_thorough4.cfg", heap="3g", timeout=6 * 3600)
